@@ -56,6 +56,11 @@ Theorem C06_fixed_bisimulation :
     x_run Q L c s1 h = x_run Q L c s2 h.
 Proof. exact x_bisim_run. Qed.
 
+(** a backspace of the fixed method that returns an empty suggestion leaves no session behind - for every state *)
+Theorem C06_fixed_backspace_returning_empty :
+  forall (Q : oracles) c s ctrl, out_empty (snd (x_backspace Q c s ctrl)) = true -> x_ongoing (fst (x_backspace Q c s ctrl)) = false.
+Proof. exact x_empty_backspace_ends. Qed.
+
 Theorem C06_fixed_flag : forall s, x_ongoing s = true <-> (x_rb s <> [] \/ x_pend s <> None).
 Proof. exact x_ongoing_spec. Qed.
 
@@ -85,3 +90,4 @@ Example C06_lone_escape_character :
 Proof. vm_compute. split; reflexivity. Qed.
 
 Print Assumptions C06_backspace_returning_empty.
+Print Assumptions C06_fixed_backspace_returning_empty.
